@@ -49,7 +49,7 @@ LAW_BATCHES = 4
 
 def plan(tier):
     if tier == "quick":
-        return [("refine", 6000), ("degenerate", 600), ("builders", 800), ("law", LAW_CFGS[tier] * LAW_BATCHES)]
+        return [("refine", 40000), ("degenerate", 3000), ("builders", 1500), ("law", LAW_CFGS[tier] * LAW_BATCHES)]
     return [("refine", 400000), ("degenerate", 20000), ("builders", 40000), ("law", LAW_CFGS[tier] * LAW_BATCHES)]
 
 
